@@ -174,6 +174,11 @@ def load_corpus():
     return out
 
 
+def par_ok(q):
+    """ascent_par! accepts the program as rendered (no lattices here; every column type is Send + Sync + Hash)"""
+    return all(k == "rel" for _, _, k in q["rels"])
+
+
 def tie(tier, seed, replay):
     cases = load_corpus() + gen_cases(tier, seed)
     results = engine_tie.run(PROP, cases, tag="c06")
@@ -202,6 +207,11 @@ def tie(tier, seed, replay):
             text = dl.rust_program_text(q, ty, cmap)
             jobs.append(dict(id=jid, text=text, macro="ascent", rels=q["rels"], ty=ty, scripts=[[("set", inp), ("run",), ("snap",)] for inp in inps]))
             meta[jid] = (r, kind, fmap, rmap, text, inps)
+            # the same variant through the parallel macro (sharded concurrent indices: bucket merges depend on where the
+            # hashes of the renamed constants fall); the expected answer stays the base program's least model, mapped
+            if par_ok(q):
+                jobs.append(dict(id=jid + "_par", text=text, macro="ascent_par", rels=q["rels"], ty=ty, scripts=[[("set", inp), ("run",), ("snap",)] for inp in inps]))
+                meta[jid + "_par"] = (r, kind + " [ascent_par]", fmap, rmap, text, inps)
     impl = prog.build_and_run("c06v", jobs) if jobs else {}
     kinds, distinct = {}, set()
     for jid, (r, kind, fmap, rmap, text, inps) in meta.items():
